@@ -220,7 +220,7 @@ def stepEon (d : EonD) (ws : List String) : EonD × String :=
       | none => ([], false)
     let ends := (res.flatMap (·.1)).foldl (fun acc s => if acc.contains s then acc else s :: acc) []
     let exhausted := res.any (·.2)
-    if !ends.isEmpty then ({ d with sts := (ends.take 64).map fun s => { s with wall := s.wall + 1 } }, "ok")
+    if !ends.isEmpty then ({ d with sts := ends.map fun s => { s with wall := s.wall + 1 } }, "ok")
     else
       let s := (starts.map (·.1)).headD (Eon.init 0)
       let (k, en) := greedyDiag 400 s toks 0
